@@ -348,6 +348,8 @@ def rewrites(text):
                 put('dollar:' + tag, lines[:s] + [L + ' $ a comment, with = ( signs'] + lines[s + 1:])
             # c comment before the card
             put('ccomment:' + tag, lines[:s] + ['c a comment line'] + lines[s:])
+            put('ccomment:%s-indented' % tag, lines[:s] + ['    C  indented comment 1 2 3 $ &'] + lines[s:])
+            put('ccomment:%s-bare' % tag, lines[:s] + ['c'] + lines[s:])
             if not single:
                 put('ccomment-inside:' + tag, lines[:s + 1] + ['C'] + lines[s + 1:])
             # blanks / splits at token boundaries (first, middle, last) of the first line
